@@ -13,6 +13,15 @@ References
 
 import sys
 
+def _within_comment(text, prefix):
+    """Keep a text with line breaks inside comment lines
+
+    Every line break in `text` is followed by the comment `prefix`, so
+    that no part of a header field or variable name is read as data."""
+    text = text.replace('\r\n', '\n').replace('\r', '\n')
+    return text.replace('\n', '\n' + prefix)
+
+
 def to_dimacs_file(formula, fileorname=None,
                    export_header=True,
                    export_varnames=False):
@@ -51,14 +60,16 @@ def to_dimacs_file(formula, fileorname=None,
     if export_header:
         # remove non ascii text
         for field in formula.header:
-            tmp = "c {}: {}\n".format(field, formula.header[field])
+            tmp = "c {}: {}".format(field, formula.header[field])
+            tmp = _within_comment(tmp, "c ") + "\n"
             tmp = tmp.encode('ascii', errors='replace').decode('ascii')
             output.write(tmp)
         output.write("c\n")
 
     if export_varnames:
         for varid, label in enumerate(formula.all_variable_labels(), start=1):
-            output.write("c varname {0} {1}\n".format(varid, label))
+            tmp = "c varname {0} {1}".format(varid, label)
+            output.write(_within_comment(tmp, "c ") + "\n")
         output.write("c\n")
 
     # Formula specification
